@@ -51,6 +51,10 @@ def build(variant, par, ch, names):
         for l in par:
             # a missing attribute reads as "None"
             N.register(cls() if strs[l] == "None" else cls(id=value(strs[l])), l)
+    elif variant.startswith("adv:"):
+        cls, sep, attr = N.FAMILIES[variant + ":mixin"]["cls"], "/", "name"
+        for l in par:
+            N.register(cls(name=value(strs[l])), l)
     else:
         cls, sep, attr = N.HMixinSep, "::", "label"
         for l in par:
@@ -64,7 +68,7 @@ def build(variant, par, ch, names):
 
 
 def usable(variant, names, cs):
-    sep = {"node/": "/", "node;": ";", "anyid": "/", "mixin::": ":"}[variant]
+    sep = {"node/": "/", "node;": ";", "anyid": "/", "mixin::": ":"}.get(variant, "/")
     return not any(sep in n for n in names.values()) and not any(sep in c for c in cs)
 
 
@@ -161,7 +165,7 @@ def worker_init(repo):
 
 def replay_chunk(args):
     lines, variants = args
-    out = {"n": 0, "same": 0, "attention": [], "per_kind": {}, "dropped": 0, "skipped": 0}
+    out = {"n": 0, "same": 0, "attention": [], "per_kind": {}, "dropped": 0, "skipped": 0, "lockstep_diff": []}
     strata = {}
     for idx, line in enumerate(lines):
         vec = json.loads(json.loads(line))
@@ -177,6 +181,13 @@ def replay_chunk(args):
             key = "%s:%s" % (q["q"], variant)
             out["per_kind"][key] = out["per_kind"].get(key, 0) + 1
             obs = perform(q, variant, par, ch)
+            if variant == variants[0]:
+                first = obs
+            elif variant.startswith("adv:"):
+                a = {k: v for k, v in first.items() if k != "variant"}
+                b = {k: v for k, v in obs.items() if k != "variant"}
+                if a != b and len(out["lockstep_diff"]) < 6:
+                    out["lockstep_diff"].append({"par": par, "ch": ch, "query": q, "plain": first, "adversarial": obs, "family": variant})
             if same(q, obs):
                 out["same"] += 1
             else:
